@@ -132,3 +132,6 @@ mod test {
         }
     }
 }
+
+#[cfg(kani)]
+include!(concat!(env!("TOML_VERIF_KANI"), "/toml_edit/parser_key.rs"));
